@@ -5,6 +5,28 @@ from pyvc.contracts import contract, loop
 # starting corner, and everything it does not fill stays padding.  (That it is a full permutation needs distinct angles in
 # (0, 2pi) and is part of the bounded stand-in.)
 _IN_TEMP = "exists(0, n_edges, lambda k: {x} == temp_face[k])"
+
+
+# angle of corner k (k >= 1) seen from the node, measured from the first corner, as the function defines it:
+#   u = node_0 - node_central, v_k = dual[temp_face[k]] - node_central, side_k = (node_0 x node_central) . v_k
+#   ang_k = acos(min(u . v_k / (|u| |v_k|), 1)), reflected to 2 pi - ang_k when side_k > 0
+def _v(k, c):
+    return f"(dual_node_{'xyz'[c]}[temp_face[{k}]] - node_central[{c}])"
+
+
+_U3 = [f"(node_0[{c}] - node_central[{c}])" for c in range(3)]
+_CR = ["(node_0[1]*node_central[2] - node_0[2]*node_central[1])", "(node_0[2]*node_central[0] - node_0[0]*node_central[2])",
+       "(node_0[0]*node_central[1] - node_0[1]*node_central[0])"]
+
+
+def _ang(k):
+    side = " + ".join(f"{_CR[c]}*{_v(k, c)}" for c in range(3))
+    dotuv = " + ".join(f"{_U3[c]}*{_v(k, c)}" for c in range(3))
+    nu = "sqrt(" + " + ".join(f"{_U3[c]}*{_U3[c]}" for c in range(3)) + ")"
+    nv = "sqrt(" + " + ".join(f"{_v(k, c)}*{_v(k, c)}" for c in range(3)) + ")"
+    cosang = f"(({dotuv}) / ({nu} * {nv}))"
+    base = f"acos(ite({cosang} > 1.0, 1.0, {cosang}))"
+    return f"ite(0 + {side} > 0.0, 0 - {base} + 2.0 * pi, {base})"
 contract("uxarray.grid.dual._order_nodes", props=["C18"],
          sizes=["n_edges", "max_edges", "n_dual"],
          size_constraints=["1 <= n_edges", "n_edges <= max_edges"],
@@ -16,13 +38,37 @@ contract("uxarray.grid.dual._order_nodes", props=["C18"],
          ensures=["shape(result) == (max_edges,)",
                   "result[0] == temp_face[0]",
                   "forall(0, max_edges, lambda j: result[j] == FILL or " + _IN_TEMP.format(x="result[j]") + ")",
-                  "forall(n_edges, max_edges, lambda j: result[j] == FILL)"],
+                  "forall(n_edges, max_edges, lambda j: result[j] == FILL)",
+                  # counter-clockwise: the corners that were placed appear in strictly increasing angle around the node
+                  "forall(1, n_edges, lambda j: implies(result[j] != FILL, 1 <= pick[j] and pick[j] < n_edges and result[j] == temp_face[pick[j]]), "
+                  "pattern=lambda j: result[j])",
+                  "forall(1, n_edges, 1, n_edges, lambda j, h: implies(j < h and result[j] != FILL and result[h] != FILL, "
+                  "ang(pick[j]) < ang(pick[h])), pattern=lambda j, h: (result[j], result[h]))"],
          loops={
-             0: loop(counter="ja", invariants=["True"]),
+             # every angle computed so far is the geometric angle of its corner (the starting corner has angle 0)
+             0: loop(counter="ja", invariants=["d_angles[0] == 0",
+                                               "forall(1, ja, lambda k: d_angles[k] == ang(k), pattern=lambda k: d_angles[k])"]),
              1: loop(counter="jb", invariants=[
                  "final_face[0] == temp_face[0]",
                  "forall(0, max_edges, lambda j: final_face[j] == FILL or " + _IN_TEMP.format(x="final_face[j]") + ")",
-                 "forall(n_edges, max_edges, lambda j: final_face[j] == FILL)"]),
-             2: loop(counter="kc", invariants=["ix_next_node == 0 - 1 or (1 <= ix_next_node and ix_next_node < n_edges)"]),
+                 "forall(n_edges, max_edges, lambda j: final_face[j] == FILL)",
+                 "forall(jb, n_edges, lambda j: final_face[j] == FILL)",
+                 "0 <= d_current_angle",
+                 # every corner placed so far: which corner it is (ghost pick), and its angle does not exceed the current one
+                 "forall(1, jb, lambda j: implies(final_face[j] != FILL, 1 <= pick[j] and pick[j] < n_edges and "
+                 "final_face[j] == temp_face[pick[j]] and ang(pick[j]) <= d_current_angle), pattern=lambda j: final_face[j])",
+                 "forall(1, jb, 1, jb, lambda j, h: implies(j < h and final_face[j] != FILL and final_face[h] != FILL, "
+                 "ang(pick[j]) < ang(pick[h])), pattern=lambda j, h: (final_face[j], final_face[h]))"],
+                 ghost_init=["let pick = garray(n_edges, 'int')"]),
+             2: loop(counter="kc", invariants=["ix_next_node == 0 - 1 or (1 <= ix_next_node and ix_next_node < n_edges and "
+                                               "d_angles[ix_next_node] == d_next_angle and d_current_angle < d_next_angle)"]),
          },
+         # the cell just written holds the geometric angle (proved without the quantified hypotheses, then used by the invariant)
+         asserts={"before^for j in range(1, n_edges)#0": [f"defun ang(k) : real = {_ang('k')}"],
+                  "after^if _cur_face_temp_idx is not#0": ["unfold ang(j)", "lemma d_angles[j] == ang(j)"],
+                  "after:final_face[j] = temp_face[ix_next_node]": [
+                      "assert ang(ix_next_node) == d_next_angle",
+                      "assert forall(1, j, lambda h: implies(final_face[h] != FILL, ang(pick[h]) < d_next_angle), pattern=lambda h: final_face[h])",
+                      "store pick, j, ix_next_node",
+                      "assert ang(pick[j]) == d_next_angle"]},
          raises=[("Exception", "False", "only_if")])
